@@ -94,8 +94,8 @@ func Z(n int64) string {
 	}
 	return strconv.FormatInt(n, 10) + "%Z"
 }
-func N(n uint64) string   { return strconv.FormatUint(n, 10) + "%N" }
-func Nat(n int) string    { return strconv.Itoa(n) + "%nat" }
+func N(n uint64) string { return strconv.FormatUint(n, 10) + "%N" }
+func Nat(n int) string  { return strconv.Itoa(n) + "%nat" }
 func OptStr(s *string) string {
 	if s == nil {
 		return "None"
@@ -107,10 +107,10 @@ func OptStr(s *string) string {
 
 // Case is one generated case: the Gallina term and a human-readable description (for replays).
 type Case struct {
-	Heavy bool       `json:"-"` // gets a case file of its own
-	Term string      `json:"-"`
-	Desc interface{} `json:"desc"`
-	Cell string      `json:"cell"` // non-triviality / distinctness class
+	Heavy bool        `json:"-"` // gets a case file of its own
+	Term  string      `json:"-"`
+	Desc  interface{} `json:"desc"`
+	Cell  string      `json:"cell"` // non-triviality / distinctness class
 }
 
 type Writer struct {
